@@ -4,7 +4,7 @@
    functions of Model.v that the theorems of Properties.v are about.  Kept apart from
    Properties.v so that a broken fact does not take the hand theorems down. *)
 From Common Require Import Prelude.
-From C15 Require Import Model Proofs ProofsCodec ProofsFixed ProofsInto ProofsLife FactsModel FactsCheck.
+From C15 Require Import Model Proofs ProofsCodec ProofsFixed ProofsInto ProofsLife ProofsHist FactsModel FactsCheck.
 From C15.gen Require Import Facts.
 Local Open Scope Z_scope.
 
@@ -115,3 +115,16 @@ Theorem src_overload_selection :
   map (fun t => fst t) gen_selection = map (fun t => fst t) exp_selection.
 Proof. exact FactsCheck.src_overload_selection. Qed.
 Print Assumptions src_overload_selection.
+
+(* BufferReader keeps nothing but (buffer, cursor); the extracted read() run on the reader of the
+   history model IS the history step: observations depend on the buffer's current contents only *)
+Theorem src_reader_state_is_buffer_and_cursor :
+  gen_reader_state = true /\
+  forall st k c mem size, nth_error (h_curs st) k = Some c -> 0 <= c -> len (h_buf st) < 2 ^ 64 ->
+    match exec_rd gen_read mem size (h_reader st c) [] with
+    | ROk bs r' => h_step st (HRead k mem size) = ({| h_buf := h_buf st; h_curs := set_nth (h_curs st) k (r_cur r') |}, HBytes bs)
+    | RThrow => h_step st (HRead k mem size) = (st, HThrow)
+    | ROob => h_step st (HRead k mem size) = (st, HOob)
+    end.
+Proof. exact FactsCheck.src_reader_state_is_buffer_and_cursor. Qed.
+Print Assumptions src_reader_state_is_buffer_and_cursor.
